@@ -22,42 +22,22 @@ def rule_key_hash(ctx, P: str = "C03") -> None:
     """Per-key hash: RSA n||e (minimal big-endian), ECC x||y at the curve's fixed coordinate width, hash chosen by key type."""
     chk = ctx.chk
     fn = ctx.own(RKHT, "RKHT", "_calc_key_hash")
-    # statements grouped by the statement list they sit in: the RSA block holds public_key.e/.n, the ECC block public_key.x/.y
-    def assigns(body) -> Dict[str, str]:
-        out = {}
-        for s in body:
-            if isinstance(s, ast.Assign):
-                for t in s.targets:
-                    out[norm(t)] = norm(s.value)
-        return out
-    blocks = []
-    for node in ast.walk(fn.node):
-        for fld in ("body", "orelse"):
-            b = getattr(node, fld, None)
-            if isinstance(b, list) and b and isinstance(b[0], ast.stmt):
-                a = assigns(b)
-                if a:
-                    blocks.append(a)
-    ecc = next((a for a in blocks if a.get("n_1") == "public_key.y" or a.get("n_2") == "public_key.x"), {})
-    rsa = next((a for a in blocks if a.get("n_1") == "public_key.e" or a.get("n_2") == "public_key.n"), {})
-    all_len = [(k, v) for a in blocks for k, v in a.items() if k in ("n1_len", "n2_len")]
-    uses_bits_for_ecc = any("bit_length" in v for k, v in ecc.items() if k in ("n1_len", "n2_len"))
-    if not ecc or not rsa:
-        lens = [norm(c.args[0]) for c in A.calls_in(fn.node, "to_bytes") if c.args]
-        has_coord = "coordinate_size" in norm(fn.node)
-        chk.decide(False, f"{P}.key-hash", fn.qual, "", f"RSA/ECC blocks of _calc_key_hash not recognised (to_bytes lengths {lens}, coordinate_size used: {has_coord})", "n_1/n_2 assigned from public_key.e/.n and public_key.y/.x", A.loc(RKHT, fn.node))
-        return
-    ecc_ok = ecc.get("n_1") == "public_key.y" and ecc.get("n_2") == "public_key.x" and (ecc.get("n1_len") == ecc.get("n2_len") == "public_key.coordinate_size") and not uses_bits_for_ecc
-    chk.decide(ecc_ok, f"{P}.key-hash", fn.qual + " ECC", "ECC: x and y both at public_key.coordinate_size bytes (fixed width, leading zeros kept)", f"{ecc}" + (": coordinate width comes from bit_length() (leading zero bytes are dropped)" if uses_bits_for_ecc else ""), "n_1 = y, n_2 = x, lengths = coordinate_size", A.loc(RKHT, fn.node))
-    rsa_ok = rsa.get("n_1") == "public_key.e" and rsa.get("n_2") == "public_key.n" and rsa.get("n1_len") == "math.ceil(n_1.bit_length() / 8)" and rsa.get("n2_len") == "math.ceil(n_2.bit_length() / 8)"
-    chk.decide(rsa_ok, f"{P}.key-hash", fn.qual + " RSA", "RSA: modulus and exponent as minimal big-endian integers", f"{rsa}", "n_1 = e, n_2 = n", A.loc(RKHT, fn.node))
-    unsupported = any(e == "raise" for _p, e in A.paths(A.body_of(fn.node)))
-    chk.decide(unsupported and len(all_len) == 4, f"{P}.key-hash", fn.qual + " other keys", "other key types raise; the lengths are assigned only in the RSA and the ECC block", f"raising path {unsupported}; length assignments {all_len}", "", A.loc(RKHT, fn.node))
-    tail = assigns([s for s in A.body_of(fn.node) if isinstance(s, ast.Assign)])
-    r = A.returns_in(fn.node)
-    ok = tail.get("n1_bytes") == "n_1.to_bytes(n1_len, Endianness.BIG.value)" and tail.get("n2_bytes") == "n_2.to_bytes(n2_len, Endianness.BIG.value)" and bool(r) and norm(r[-1].value) == "get_hash(n2_bytes + n1_bytes, algorithm=algorithm)" \
-        and tail.get("algorithm") == "algorithm or RKHT._get_hash_algorithm(public_key)"
-    chk.decide(ok, f"{P}.key-hash", fn.qual + " digest", "hash(n||e) / hash(x||y) big-endian with the key type's algorithm", f"{tail} -> {norm(r[-1].value) if r else ''}", "", A.loc(RKHT, fn.node))
+    # the function as a decision table in its inputs (symbolic paths: names of temporaries, order of the branches, where the
+    # conversion happens do not matter): what is hashed for an RSA key, for an ECC key, and that every other key is refused
+    BIG = "Endianness.BIG.value"
+    ALG = "algorithm=algorithm or RKHT._get_hash_algorithm(public_key)"
+    want = {"rsa": f"get_hash(public_key.n.to_bytes(math.ceil(public_key.n.bit_length() / 8), {BIG}) + public_key.e.to_bytes(math.ceil(public_key.e.bit_length() / 8), {BIG}), {ALG})",
+            "ecc": f"get_hash(public_key.x.to_bytes(public_key.coordinate_size, {BIG}) + public_key.y.to_bytes(public_key.coordinate_size, {BIG}), {ALG})"}
+    got = {"rsa": set(), "ecc": set(), "other": set()}
+    for q in A.spaths(fn.node):
+        kind = "rsa" if q.assumes("isinstance(public_key, PublicKeyRsa)", True) else "ecc" if q.assumes("isinstance(public_key, PublicKeyEcc)", True) else "other"
+        got[kind].add(q.vtext.replace("byteorder=", "").replace("length=", "") if q.end == "return" else q.end)
+    ecc_txt = "; ".join(sorted(got["ecc"]))
+    chk.decide(got["ecc"] == {want["ecc"]}, f"{P}.key-hash", fn.qual + " ECC", "ECC: x and y both at public_key.coordinate_size bytes (fixed width, leading zeros kept)",
+               ecc_txt[:300] + (": coordinate width comes from bit_length() (leading zero bytes of a coordinate are dropped)" if "bit_length" in ecc_txt else ""), want["ecc"], A.loc(RKHT, fn.node))
+    chk.decide(got["rsa"] == {want["rsa"]}, f"{P}.key-hash", fn.qual + " RSA", "RSA: modulus then exponent as minimal big-endian integers", "; ".join(sorted(got["rsa"]))[:300], want["rsa"], A.loc(RKHT, fn.node))
+    chk.decide(got["other"] == {"raise"}, f"{P}.key-hash", fn.qual + " other keys", "other key types raise", f"{sorted(got['other'])}", "", A.loc(RKHT, fn.node))
+    chk.decide(bool(got["rsa"]) and bool(got["ecc"]) and all(ALG in v for v in got["rsa"] | got["ecc"]), f"{P}.key-hash", fn.qual + " digest", "hash(n||e) / hash(x||y) big-endian with the key type's algorithm (or the one asked for)", "", "", A.loc(RKHT, fn.node))
     ga = ctx.own(RKHT, "RKHT", "_get_hash_algorithm")
     t = norm(ga.node)
     ok = "if isinstance(key, PublicKeyEcc): return EnumHashAlgorithm.from_label(f'sha{key.key_size}')" in t.replace("\n", " ") or ("EnumHashAlgorithm.from_label(f'sha{key.key_size}')" in t and "return EnumHashAlgorithm.SHA256" in t)
